@@ -127,6 +127,29 @@ CHECKS = {
             "bracket and, under hard selection, equality with the metric of the exported network.",
             "Relative tolerance 1e-5; sampled coefficients taken as given (C10 checks them).",
             "DESIGN.md 4/C06"),
+    'C16': ("exhaustive grids + Hypothesis axis sweeps over every registered cost function; "
+            "monotonicity / positivity / finiteness / exact-rounding / rejection oracles",
+            "Every function registered by every built-in CostSpec is called directly: complete "
+            "(cin x cout) grids (quick: 46 channel values incl. tile edges and x.5 fractions; "
+            "thorough: 1..130 + fractions), Hypothesis-drawn base points swept along every axis "
+            "(channels, kernel, output rows/cols, weight/activation bits), depthwise == generic per "
+            "group for the hardware-independent metrics, the seven rounding helpers vs Python "
+            "integer arithmetic on 1..300 (thorough 1..1200) and fractional brackets with "
+            "gradient pass-through, and a table of unsupported precisions/kinds that must raise.",
+            "Pattern held fixed per sweep (a 1->1 conv belongs to the depthwise pattern); relative "
+            "tolerance 1e-6 on 'does not decrease'.",
+            "DESIGN.md 4/C16"),
+    'C19': ("Hypothesis-generated stub/real models and schedule positions + exhaustive epoch grid; "
+            "float64 reference formula, zero-iff, growth and gradient oracles",
+            "Generated-input search on stub DNAS objects with controllable named costs (above / at / "
+            "below target, given or derived strengths) and on real PIT models with drawn masks; "
+            "the (n_epochs, epoch) grid for n_epochs <= 50 is enumerated completely. Oracles: "
+            "closed-form reference in float64, penalty == 0 iff all constraints hold, strict "
+            "growth under a bumped excess, gradient == effective strength, effective strength "
+            "1% at epoch 0, monotone, final at half schedule, never above final.",
+            "Derived strengths only under the property's premise (every initial cost above its "
+            "target); float32-vs-float64 tolerance 1e-4.",
+            "DESIGN.md 4/C19"),
 }
 
 NOT_YET = "check not built yet in this session; planned with property-based testing per DESIGN.md section 4"
